@@ -284,9 +284,13 @@ class C06(ScanProperty):
                 ops.append(['next'])
                 if rng.random() < 0.7:
                     ops.append(['current_mode'])      # the tokens are the same in every mode: observe the mode itself
-            elif r < 0.8:
+            elif r < 0.78:
                 ops.append(['set_mode', rng.randrange(nm)])
-            elif r < 0.9:
+            elif r < 0.86:
+                # re-positioning is neither a transition token nor set_mode: the mode stays
+                ops.append(['set_offset', rng.choice(gen.boundaries(inp))])
+                ops.append(['current_mode'])
+            elif r < 0.93:
                 ops.append(['peek', rng.randint(1, 3)])
             else:
                 ops.append(['current_mode'])
@@ -312,7 +316,7 @@ class C06(ScanProperty):
         modes, alpha = dense_config(rng, nm, la_prob=0.1, npat=(1, 6) if i % 3 == 0 else (1, 4))
         inp = gen.gen_small_input(rng, alpha, maxlen=14)
         ops = gen.gen_history(rng, modes, inp, n=rng.randint(3, 14),
-                              kinds=['next'] * 6 + ['peek'] * 2 + ['set_mode', 'current_mode', 'current_mode'])
+                              kinds=['next'] * 6 + ['peek'] * 2 + ['set_mode', 'current_mode', 'current_mode', 'set_offset'])
         c = {'modes': modes, 'input': inp, 'ops': ops}
         if rng.random() < 0.3:
             c['scanner_mode'] = rng.randrange(nm)
